@@ -218,7 +218,7 @@ def run_correspondence(harness, prop, tier, seed, outdir):
             c, i, m = c.rstrip("\n"), i.rstrip("\n"), m.rstrip("\n")
             results[i] = results.get(i, 0) + 1
             rows.append((c, i))
-            if i != m:
+            if i != m and m != "skip":
                 if len(dis) < 200:
                     dis.append(dict(case=c, impl=i, model=m))
                 else:
